@@ -278,3 +278,32 @@ Proof.
   destruct (spec_toks_chain _ _ Hsrc) as (_ & Hch).
   symmetry. eapply tchunks_mweight; [eapply chain_shaped, Hch | apply inv_init_w | exact Ht].
 Qed.
+
+(* ---------- any splitting of the source into lines (how the .p8 reader feeds the lexer) ---------- *)
+From PV Require Proofs.LexerChunk.
+
+Lemma luamin_text_chunking cfg ls : Forall LexerChunk.ends_lf (removelast ls) ->
+  luamin_text cfg ls = luamin_text cfg [concat ls].
+Proof. intros H. unfold luamin_text. rewrite (LexerChunk.model_lex_chunking ls H). reflexivity. Qed.
+
+Theorem luamin_lines cfg ls ss : Forall LexerChunk.ends_lf (removelast ls) -> Forall byte (concat ls) ->
+  spec_toks (concat ls) = Some ss ->
+  exists out, luamin_text cfg ls = Ok out /\ holds_C01 (concat ls) out = true /\ holds_C19 (concat ls) out = true.
+Proof.
+  intros Hl HB H. rewrite (luamin_text_chunking cfg ls Hl). apply (luamin_end_to_end cfg (concat ls) ss HB H).
+Qed.
+
+Theorem luamin_lines_all cfg ls out : Forall LexerChunk.ends_lf (removelast ls) -> Forall byte (concat ls) ->
+  luamin_text cfg ls = Ok out -> holds_C01 (concat ls) out = true /\ holds_C19 (concat ls) out = true.
+Proof.
+  intros Hl HB H. rewrite (luamin_text_chunking cfg ls Hl) in H. apply (luamin_holds_all cfg (concat ls) out HB H).
+Qed.
+
+Theorem luamin_lines_count cfg ls ss : Forall LexerChunk.ends_lf (removelast ls) -> Forall byte (concat ls) ->
+  spec_toks (concat ls) = Some ss ->
+  exists ts out ts', model_lex ls = Ok ts /\ luamin_text cfg ls = Ok out /\ model_lex [out] = Ok ts' /\
+    token_count ts' = token_count ts.
+Proof.
+  intros Hl HB H. rewrite (luamin_text_chunking cfg ls Hl), (LexerChunk.model_lex_chunking ls Hl).
+  apply (luamin_stats_count cfg (concat ls) ss HB H).
+Qed.
